@@ -3,6 +3,7 @@ module verif
 go 1.23
 
 require (
+	github.com/robertkrimen/otto v0.0.0-20191219234010-c382bd3c16ff
 	github.com/robfig/soy v0.0.0-00010101000000-000000000000
 	golang.org/x/tools v0.29.0
 )
@@ -12,6 +13,7 @@ require (
 	golang.org/x/mod v0.22.0 // indirect
 	golang.org/x/sync v0.10.0 // indirect
 	golang.org/x/sys v0.29.0 // indirect
+	gopkg.in/sourcemap.v1 v1.0.5 // indirect
 )
 
 replace github.com/robfig/soy => /repo
